@@ -65,7 +65,19 @@ fn typ() -> BoxedStrategy<String> {
 }
 
 fn pair() -> BoxedStrategy<(String, Vec<u8>)> {
-    (typ(), payload()).boxed()
+    prop_oneof![
+        9 => (typ(), payload()),
+        // the payload is itself an encoding under the *same* type (re-wrapping a stored signing input), possibly
+        // followed by further bytes
+        2 => (typ(), payload(), proptest::collection::vec(any::<u8>(), 0..4), any::<bool>()).prop_map(|(t, p, tail, junk)| {
+            let mut inner = reference_pae(&t, &p);
+            if junk {
+                inner.extend_from_slice(&tail);
+            }
+            (t, inner)
+        }),
+    ]
+    .boxed()
 }
 
 /// Move `k` bytes across the type/payload boundary (when that keeps the type valid UTF-8).
@@ -195,7 +207,7 @@ impl Property for C20 {
     }
     fn rule() -> String {
         format!("Generated: (type,payload) pairs (types from Unicode text / framing alphabet; payloads random bytes, \
-         framing characters, nested encodings, long), near-collision pairs made by moving bytes across the type/payload \
+         framing characters, nested encodings - also under the very type they are packed under again -, long), near-collision pairs made by moving bytes across the type/payload \
          boundary, and decoder inputs (random bytes, mutated valid encodings: truncation, byte edits, lengths +-1, huge lengths, \
          missing separators). Enumerated: every byte string 'DSSEv1 '+s with s over the alphabet {{0,1,2,space,9,a,+,-,0xff}} \
          up to length {} (quick) / {} (thorough), and every s of length <= 4 without the prefix. Oracles: unpack(pack(t,p))==(p,t); \
